@@ -31,6 +31,12 @@
 #endif
 #define C04_WITH_EXT 1
 #include "c04_builder.h"
+/* secondary witness points are only compiled in the thorough tier (-DWITNESS_ALL): every witness costs a solver call plus a full trace */
+#ifdef WITNESS_ALL
+#define WITNESS_EXTRA(msg) WITNESS_POINT(msg)
+#else
+#define WITNESS_EXTRA(msg) ((void)0)
+#endif
 #ifndef REPLY_PRESENT
 #define REPLY_PRESENT 1
 #endif
@@ -150,7 +156,7 @@ void harness(void) {
 			CHECK(sb_tmp.calendarChain == NULL, "C04.Hext no chain is buffered after an extender error status");
 			if (C4.ext.status == 0x0101) CHECK(r.status == KSI_SERVICE_INVALID_REQUEST, "C04.Hext extender status 0x101 is reported as invalid request");
 #if REQ_POSSIBLE && REPLY_PRESENT && C04_EXT_HAS_STATUS
-			if (C4.ext.status == 0x7fffffffffffffffULL) WITNESS_POINT("unknown extender status");
+			if (C4.ext.status == 0x7fffffffffffffffULL) WITNESS_EXTRA("unknown extender status");
 			if (C4.ext.status == 0x0104) WITNESS_POINT("extender refuses the time range");
 #endif
 		} else if (s != KSI_OK) {
@@ -160,8 +166,10 @@ void harness(void) {
 #if REQ_POSSIBLE && REPLY_PRESENT && C04_EXT_HAS_REQID
 			if (VERIF_ext.send_res == KSI_OK && VERIF_ext.perform_res == KSI_OK && VERIF_ext.get_res == KSI_OK) WITNESS_POINT("reply with another request id refused");
 #endif
-#if REQ_POSSIBLE
+#if REQ_POSSIBLE && !REPLY_PRESENT
 			if (VERIF_ext.send_res == KSI_OK && VERIF_ext.perform_res == KSI_NETWORK_ERROR) WITNESS_POINT("network error while receiving");
+#elif REQ_POSSIBLE
+			if (VERIF_ext.send_res == KSI_OK && VERIF_ext.perform_res == KSI_NETWORK_ERROR) WITNESS_EXTRA("network error while receiving");
 #endif
 		} else {
 #if REPLY_PRESENT
